@@ -152,9 +152,11 @@ def gen_decls(rng, cfg):
         else:
             name, ret, params = '%s_%ss_%s' % (spx, tus, w), 'void', [(t + ' *', 'self')]
         stripped = name[len(spx) + 1:]
-        if stripped in seen:
+        # the same C name can arise from two different prefix/type splits (foo + x_new, foo_x + new): one declaration only
+        if stripped in seen or ('c:' + name) in seen:
             continue
         seen.add(stripped)
+        seen.add('c:' + name)
         lines.append(apigen.render_function(name, ret, params))
         decls.append({'c': name, 'class': 'function', 'shape': shape, 'ret': ret, 'params': params, 'type': t})
     for nm, shape in (('_%s_private_thing' % sp[0], 'hidden'), ('xyz_foreign_call', 'foreign'), ('g_foo_glibish', 'glib-prefixed')):
